@@ -460,3 +460,16 @@ func DirFSReadFile(dir string, name string) ([]byte, error) {
 	}
 	return ReadFile(join(dir, name))
 }
+
+// StdStreams gives the process its standard streams: three open files on /dev/stdin, /dev/stdout
+// and /dev/stderr of the model (for code that takes os.Stdout as a value, e.g. iostream.OS()).
+func StdStreams() (stdin, stdout, stderr *os.File) {
+	AddDir("/dev")
+	mk := func(p string) *os.File {
+		Files[p] = &Entry{}
+		f := new(os.File)
+		handles[f] = &handle{path: p, append: true}
+		return f
+	}
+	return mk("/dev/stdin"), mk("/dev/stdout"), mk("/dev/stderr")
+}
